@@ -137,12 +137,15 @@ namespace occa {
   void device::setup(const occa::json &props) {
     free();
 
-    const std::string mode_ = props["mode"];
+    // Modes are looked up case-insensitively and fall back to Serial:
+    // use the registered name, the one mode() reports, to pick "modes/<mode>" entries
+    const std::string mode_ = getModeFromProps(props)->name();
 
     occa::json deviceProps = (
       getObjectSpecificProps(mode_, "device", settings())
       + getModeSpecificProps(mode_, props)
     );
+    deviceProps["mode"] = mode_;
 
     deviceProps["kernel"] = initialObjectProps(mode_, "kernel", props);
     deviceProps["memory"] = initialObjectProps(mode_, "memory", props);
